@@ -112,6 +112,31 @@ PENDING = "check under construction in this round (design in DESIGN.md §3); not
 
 ALL = ["C%02d" % i for i in range(1, 21)]
 
+# Addenda: clauses added after the table above was written (appended to text / technique).
+UNITS_TEXT = " Units (E7): within the functions of this property no two quantities of known, different units (seconds, milliseconds, nanoseconds, media ticks, timescale; from the repository's S/MS/Timescale naming convention and a table of tick-valued fields) are added, subtracted, compared, stored or passed where another unit is expected."
+UNITS_TECH = "; unit (dimension) inference over SSA"
+ADD_TEXT = {
+ "C01": UNITS_TEXT, "C03": UNITS_TEXT, "C05": UNITS_TEXT, "C12": UNITS_TEXT,
+ "C02": UNITS_TEXT + " A startNumber computed from the 'no segment yet' field is stored under a direct test of that field.",
+ "C04": UNITS_TEXT + " Each copy of the number-to-segment mapping refuses numbers below startNumber by a signed test whose failing side is an error exit.",
+ "C06": UNITS_TEXT + " The bounds of the period loop read the window edges and the period duration and nothing else.",
+ "C09": UNITS_TEXT + " The chunk duration handed to the splitter depends on the segment duration and, of all URL options, on availabilityTimeOffset only.",
+ "C10": " All sites that append a chunk to the splitter's result apply the same callbacks to it first (sibling agreement).",
+ "C11": " The queries of the two regenerated MPDs are cut out of the request's raw query; no time value is re-formatted into them.",
+ "C13": UNITS_TEXT + " The chunk splitter hands the event boxes of its source segment over to a chunk.",
+ "C14": UNITS_TEXT + " The second handed to the traffic-pattern lookup is computed without rounding up or to nearest.",
+ "C15": " The segment scan is reachable from the cache read only through the 'no file found' edge; a field that is not persisted is not derived solely under a test that a persisted field is still unset.",
+ "C16": UNITS_TEXT + " The instant handed to the segment generator is, on every path, a result of the availability-time function, which rounds up to whole milliseconds.",
+ "C18": " Where the parser reads with io.ReadFull/io.ReadAtLeast, io.ErrUnexpectedEOF is recognised.",
+ "C19": " The hand-over of segment data to the channel goroutine is a send that cannot be skipped; a get-or-create function returns the object that is in the table.",
+ "C20": " A new interval starts at the time of the request that finds the old one elapsed, and the counters are replaced only under a test of request time, reset time and interval.",
+}
+ADD_TECH = {k: UNITS_TECH for k in ("C01", "C02", "C03", "C04", "C05", "C06", "C09", "C12", "C13", "C14", "C16")}
+for _k, _v in ADD_TEXT.items():
+    CLAIMED[_k]["text"] += _v
+for _k, _v in ADD_TECH.items():
+    CLAIMED[_k]["technique"] += _v
+
 def main():
     checks = []
     for pid in ALL:
